@@ -176,3 +176,30 @@ func VerifC08AV1() {
 	_ = (&AV1Payloader{}).Payload(mtu, nil)
 	verifCover("C08.av1.end")
 }
+
+// inputs longer than 64 KiB (offsets beyond 16 bits) through every payloader
+// that takes raw media: bound, no panic, input untouched
+func VerifC08Long() {
+	n := verifPick("len", []int{65537, 80010})
+	mtu := uint16(verifPick("mtu", []int{65535, 40000, 1500}))
+	in := verifLongFrame(n, true)
+	var pay verifPayloadFn
+	switch verifCase("codec", 0, 3) {
+	case 0:
+		pay = (&G711Payloader{}).Payload
+	case 1:
+		pay = (&G722Payloader{}).Payload
+	case 2:
+		pay = (&VP8Payloader{EnablePictureID: verifBool("pictureid")}).Payload
+	default:
+		in[0] = 0x84 // VP9 profile 0 inter frame
+		pay = (&VP9Payloader{FlexibleMode: verifBool("flexible"), InitialPictureIDFn: func() uint16 { return 3 }}).Payload
+	}
+	frags := verifC08Call("C08.long", pay, mtu, in, false)
+	total := 0
+	for _, f := range frags {
+		total += len(f)
+	}
+	verifAssert("C08.long.nothing-lost", total >= n)
+	verifCover("C08.long.end")
+}
